@@ -19,7 +19,11 @@ package paths
 import "strings"
 
 func (r *relativePathsResolver) absContextPath(value any) (any, error) {
-	v := value.(string)
+	v, ok := value.(string)
+	if !ok {
+		// not a path: left as is, type errors are reported by validation
+		return value, nil
+	}
 	if strings.Contains(v, "://") { // `docker-image://` or any builder specific context type
 		return v, nil
 	}
